@@ -27,7 +27,9 @@ func (r *NodeManagement) processReadDetailedDiscoveryData(deviceRemote api.Devic
 	var entityInformation []model.NodeManagementDetailedDiscoveryEntityInformationType
 	var featureInformation []model.NodeManagementDetailedDiscoveryFeatureInformationType
 
-	for _, e := range r.Device().Entities() {
+	entities := r.Device().Entities()
+	verifYieldLT("DiscoveryRead.entities")
+	for _, e := range entities {
 		entityInformation = append(entityInformation, *e.Information())
 
 		for _, f := range e.Features() {
